@@ -146,14 +146,19 @@ contract(Contract(
     target=EL + ":ellipses.<locals>.replace_match",
     props=["C09"],
     params={"match": "ref:Match"},
-    free={"text": "str"},
+    free={"text": "str", "tag_spans": "list[tuple[int,int]]"},
     setup=el_setup,
     calls={"Match.group": Callee("custom", handler=match_group),
            "Match.end": Callee("uf", ret="int", sig=["self"],
                                post=lambda ex, b, r: ex.z(r) >= 0),
+           "Match.start": Callee("uf", ret="int", sig=["self", "group"], post=lambda ex, b, r: ex.z(r) >= 0),
            "re.match": Callee("uf", ret="bool", sig=["pattern", "string"])},
-    ensures={"D": Clause(D_shape)},
+    ensures={"D": Clause(D_shape),
+             # C09 / C04 / C06: a dot run that lies inside a template tag is returned as matched
+             "inside_a_tag_untouched": Clause("all(implies(tag_spans[k][0] <= call('Match.start', match, 3) and call('Match.start', match, 3) < tag_spans[k][1],"
+                                              " result == match.group(0)) for k in range(len(tag_spans)))", props=["C09", "C04", "C06"])},
     canaries=[
+        ("        if any(start <= dots < end for start, end in tag_spans):\n            return match.group(0)\n", "", None, ["post[inside_a_tag_untouched"]),
         ('result += "…" + punct', 'result += "…"'),
         ("            result += spaces_after", '            result += ""'),
         ("        result = prefix\n", '        result = ""\n'),
